@@ -21,8 +21,11 @@ import fmcbuild
 from checks import CHECKS, HARNESSES
 
 VERIF = os.path.dirname(os.path.abspath(__file__))
-OUT = os.path.join(VERIF, "out")
-EVID = os.path.join(VERIF, "evidence")
+# VERIF_SCRATCH redirects outputs (replays, evidence) when the checks are pointed at a scratch copy of the
+# repository (seeded-bug testing); the registered commands never set it.
+_SCR = os.environ.get("VERIF_SCRATCH")
+OUT = os.path.join(_SCR, "out") if _SCR else os.path.join(VERIF, "out")
+EVID = os.path.join(_SCR, "evidence") if _SCR else os.path.join(VERIF, "evidence")
 
 
 def load_known():
